@@ -71,15 +71,17 @@ def out : Out → Json
 /-- `c12.run {ops: [...]}` -> `{"ok": {"outs": [...], "spec": [...]}}`: the outputs of the
 CONCRETE model (`run init ops`) and, separately, what the abstract specification says
 (`specRun [] ops`, computed from the log of registrations only); `{"err": name}` if the model
-raised. -/
+raised.  Field `wf`: `reg_once` - no listener is registered twice for one event in this history
+(`regOnceB`, the hypothesis of `Props.C12.dispatch_each_once_decided`). -/
 def handle (m : String) (j : Json) : Option (R Json) :=
   match m with
   | "c12.run" => some do
       let ops ← (← fArr j "ops").toList.mapM op
       let spec := jList out (specRun [] ops)
+      let wf := Json.mkObj [("reg_once", .bool (regOnceB (logOf ops)))]
       match run init ops with
-      | .ok (_, outs) => return jOk (Json.mkObj [("outs", jList out outs), ("spec", spec)])
-      | .error e => return Json.mkObj [("err", .str e.name), ("spec", spec)]
+      | .ok (_, outs) => return (jOk (Json.mkObj [("outs", jList out outs), ("spec", spec)])).setObjVal! "wf" wf
+      | .error e => return Json.mkObj [("err", .str e.name), ("spec", spec), ("wf", wf)]
   | _ => none
 
 end Clikit.Drv.C12
